@@ -125,6 +125,18 @@ MUTANTS = [
     ("hmm-obs-trans", ["C37"], HMM, r"observation_distribution = tfd.Categorical\(logits=config.observation_tensor\(\)\)", "observation_distribution = tfd.Categorical(logits=config.transition_tensor())"),
     ("masked-iter-pre-swap", ["C16"], SCAN, r"def pre\(state, flag: Flag\):\n            return flag, state\n\n        def post\(args, _xformed", "def pre(state, flag: Flag):\n            return state, flag\n\n        def post(args, _xformed"),
     ("closure-fn-dynamic", ["C21", "C32"], PYT, r"fn: Callable\[\.\.\., R\] = Pytree.static\(\)", "fn: Callable[..., R] = Pytree.field()"),
+    ("adev-pair-parallel", ["C29"], ADP, r"\(p_tangent, ret_tangents\)", "(p_tangent, p_tangent)"),
+    ("adev-beta-primal", ["C29"], ADP, r"jax.jvp\(_inner, primals, tangents\)\n        return Dual\(primal_out, tangent_out\)", "jax.jvp(_inner, primals, tangents)\n        return Dual(key, tangent_out)"),
+    ("adev-mvd-sign", ["C29"], ADP, r"other - b_primal", "other + b_primal"),
+    ("adev-parallel-weights", ["C29"], ADP, r"jnp.array\(\[p, 1 - p\]\)", "jnp.array([p, 1 + p])"),
+    ("adev-default-arm-tangent", ["C29"], ADC, r"Dual.dual_tree\(primal_outs, tangent_outs\)", "Dual.dual_tree(primal_outs, tangents)"),
+    ("hmm-fwd-obs", ["C37"], HMM, r"obs = x\n", "obs = prev\n"),
+    ("hmm-fwd-alpha", ["C37"], HMM, r"alpha = obs_n \+ alpha.reshape", "alpha = obs_n + prev.reshape"),
+    ("hmm-fwd-branch", ["C37"], HMM, r"check = index == 0\n        alpha", "check = index != 0\n        alpha"),
+    ("hmm-bwd-filter", ["C37"], HMM, r"backward_distribution = forward_filter \+", "backward_distribution = prev +"),
+    ("hmm-bwd-noflip", ["C37"], HMM, r"jnp.flip\(forward_filters, axis=0\),", "forward_filters,"),
+    ("hmm-result-flip", ["C37"], HMM, r"samples = jnp.flip\(samples\)", "samples = jnp.flip(prior)"),
+    ("hmm-bwd-unnormalised-key", ["C37"], HMM, r"sample = jax.random.categorical\(key, backward_distribution\)", "sample = jax.random.categorical(prev, backward_distribution)"),
     ("subtrace-fold-order", ["C34", "C38"], GF, r"lambda tr, addr: tr.get_inner_trace\(addr\), addresses, self", "lambda tr, addr: tr.get_inner_trace(addr), reversed(addresses), self"),
 ]
 
@@ -152,6 +164,15 @@ TWINS = [
     ("tt-rename", TT, r"\bnew_ptr\b", "candidate"),
     ("dimap-rename", DIMAP, r"\binner_retval_primals\b", "ret_primals"),
     ("closure-temp", GF, r"full_args = self.args \+ args\n        if self.kwargs:\n            maybe_kwarged_gen_fn = self._with_kwargs\(\)\n            return maybe_kwarged_gen_fn.assess", "stored = self.args\n        full_args = stored + args\n        if self.kwargs:\n            maybe_kwarged_gen_fn = self._with_kwargs()\n            return maybe_kwarged_gen_fn.assess"),
+    ("adev-mvd-commute", ADP, r"est = \(\(-1\) \*\* v\) \* \(other - b_primal\)", "est = (other - b_primal) * ((-1) ** v)"),
+    ("adev-enum-commute", ADP, r"return p \* tl \+ \(1 - p\) \* fl", "return (1 - p) * fl + tl * p"),
+    ("adev-parallel-rename", ADP, r"\bret_tangents\b", "kont_tangents"),
+    ("adev-reinforce-commute", ADP, r"out_tangent \+ \(out_primal \* lp_tangent\)", "(lp_tangent * out_primal) + out_tangent"),
+    ("adev-core-rename", ADC, r"\btangent_outs\b", "t_outs"),
+    ("hmm-commute-fwd", HMM, r"prev \+ transition_n,", "transition_n + prev,"),
+    ("hmm-commute-bwd", HMM, r"backward_distribution = forward_filter \+ transition_n\[:, prev_sample\]", "backward_distribution = transition_n[:, prev_sample] + forward_filter"),
+    ("hmm-cond-polarity", HMM, r"check = index == 0\n        alpha = jax.lax.cond\(check, init_branch, t_branch, prev, obs\)", "alpha = jax.lax.cond(index != 0, t_branch, init_branch, prev, obs)"),
+    ("hmm-transpose-symmetric", HMM, r"transition_n\[:, prev_sample\]", "transition_n[prev_sample, :]"),
     ("docstring-edit", SCAN, r"Prepends the initial accumulator value", "Prepends the first accumulator value"),
     ("comment-shift", DIST, r"(class Distribution\(Generic\[R\], GenerativeFunction\[R\]\):)", "# moved comment\n\n\n\\1"),
 ]
